@@ -81,7 +81,8 @@ Record centry := { ce_ver : Z; ce_hosts : list (Z * Z); ce_rs : bool }.
 (* client write.  phase: 1 StatBlob, 2 GetTracts, 3 writes, 4 ReportBadTS/FixVersion *)
 Record wop := { wo_op : Z; wo_cli : Z; wo_blob : Z; wo_tract : Z; wo_off : Z; wo_len : Z; wo_wid : Z;
                 wo_phase : Z; wo_cached : bool; wo_retry : bool; wo_entry : option centry;
-                wo_res : list (Z * Z); wo_final : Z }.
+                wo_res : list (Z * Z); wo_final : Z;
+                wo_late : bool (* ghost: the tract had an RS pointer when the operation started *) }.
 
 Record pent := { p_id : Z; p_rpc : rpc; p_owner : Z; p_run : bool (* FixVersion callee running *) ; p_lose : bool }.
 
@@ -112,76 +113,83 @@ Record state := {
   s_acked : list (tkt * wrec);            (* acknowledged writes, newest first *)
   s_att : list (tkt * wrec);              (* write attempts started, newest first *)
   s_commits : list (tkt * Z * list wrec * Z * Z * list wrec); (* applied commits: tract, term of the round, packed content, new version, stored version before, the writes to the tract started so far (newest first) *)
-  s_durlog : list (Z * Z * Z)             (* durable steps of rounds that were applied: (round op, round term, term at apply) *)
+  s_durlog : list (Z * Z * Z);            (* durable steps of rounds that were applied: (round op, round term, term at apply) *)
+  s_late : list (tkt * wrec)              (* acknowledged writes of clients without cache that STARTED when their tract already had an RS pointer *)
 }.
 
 Definition init_state : state :=
   {| s_reps := []; s_stamps := []; s_epoch := []; s_pieces := []; s_blobs := []; s_dtr := []; s_term := 1;
      s_nextchunk := 1; s_gen := 1; s_known := []; s_nts := 0; s_rounds := []; s_fix := []; s_pool := [];
      s_next := 1; s_nfix := 0; s_wops := []; s_cache := []; s_lcache := []; s_usecache := []; s_fin := []; s_mark := 1;
-     s_acked := []; s_att := []; s_commits := []; s_durlog := [] |}.
+     s_acked := []; s_att := []; s_commits := []; s_durlog := []; s_late := [] |}.
 
 Definition set_store st reps stamps pieces :=
   {| s_reps := reps; s_stamps := stamps; s_epoch := s_epoch st; s_pieces := pieces; s_blobs := s_blobs st; s_dtr := s_dtr st;
      s_term := s_term st; s_nextchunk := s_nextchunk st; s_gen := s_gen st; s_known := s_known st; s_nts := s_nts st;
      s_rounds := s_rounds st; s_fix := s_fix st; s_pool := s_pool st; s_next := s_next st; s_nfix := s_nfix st;
      s_wops := s_wops st; s_cache := s_cache st; s_lcache := s_lcache st; s_usecache := s_usecache st; s_fin := s_fin st;
-     s_mark := s_mark st; s_acked := s_acked st; s_att := s_att st; s_commits := s_commits st; s_durlog := s_durlog st |}.
+     s_mark := s_mark st; s_acked := s_acked st; s_att := s_att st; s_commits := s_commits st; s_durlog := s_durlog st; s_late := s_late st |}.
 Definition set_epoch st v :=
   {| s_reps := s_reps st; s_stamps := s_stamps st; s_epoch := v; s_pieces := s_pieces st; s_blobs := s_blobs st; s_dtr := s_dtr st;
      s_term := s_term st; s_nextchunk := s_nextchunk st; s_gen := s_gen st; s_known := s_known st; s_nts := s_nts st;
      s_rounds := s_rounds st; s_fix := s_fix st; s_pool := s_pool st; s_next := s_next st; s_nfix := s_nfix st;
      s_wops := s_wops st; s_cache := s_cache st; s_lcache := s_lcache st; s_usecache := s_usecache st; s_fin := s_fin st;
-     s_mark := s_mark st; s_acked := s_acked st; s_att := s_att st; s_commits := s_commits st; s_durlog := s_durlog st |}.
+     s_mark := s_mark st; s_acked := s_acked st; s_att := s_att st; s_commits := s_commits st; s_durlog := s_durlog st; s_late := s_late st |}.
 Definition set_dur st blobs dtrs term nextchunk :=
   {| s_reps := s_reps st; s_stamps := s_stamps st; s_epoch := s_epoch st; s_pieces := s_pieces st; s_blobs := blobs; s_dtr := dtrs;
      s_term := term; s_nextchunk := nextchunk; s_gen := s_gen st; s_known := s_known st; s_nts := s_nts st;
      s_rounds := s_rounds st; s_fix := s_fix st; s_pool := s_pool st; s_next := s_next st; s_nfix := s_nfix st;
      s_wops := s_wops st; s_cache := s_cache st; s_lcache := s_lcache st; s_usecache := s_usecache st; s_fin := s_fin st;
-     s_mark := s_mark st; s_acked := s_acked st; s_att := s_att st; s_commits := s_commits st; s_durlog := s_durlog st |}.
+     s_mark := s_mark st; s_acked := s_acked st; s_att := s_att st; s_commits := s_commits st; s_durlog := s_durlog st; s_late := s_late st |}.
 Definition set_cur st gen known nts :=
   {| s_reps := s_reps st; s_stamps := s_stamps st; s_epoch := s_epoch st; s_pieces := s_pieces st; s_blobs := s_blobs st; s_dtr := s_dtr st;
      s_term := s_term st; s_nextchunk := s_nextchunk st; s_gen := gen; s_known := known; s_nts := nts;
      s_rounds := s_rounds st; s_fix := s_fix st; s_pool := s_pool st; s_next := s_next st; s_nfix := s_nfix st;
      s_wops := s_wops st; s_cache := s_cache st; s_lcache := s_lcache st; s_usecache := s_usecache st; s_fin := s_fin st;
-     s_mark := s_mark st; s_acked := s_acked st; s_att := s_att st; s_commits := s_commits st; s_durlog := s_durlog st |}.
+     s_mark := s_mark st; s_acked := s_acked st; s_att := s_att st; s_commits := s_commits st; s_durlog := s_durlog st; s_late := s_late st |}.
 Definition set_rounds st v :=
   {| s_reps := s_reps st; s_stamps := s_stamps st; s_epoch := s_epoch st; s_pieces := s_pieces st; s_blobs := s_blobs st; s_dtr := s_dtr st;
      s_term := s_term st; s_nextchunk := s_nextchunk st; s_gen := s_gen st; s_known := s_known st; s_nts := s_nts st;
      s_rounds := v; s_fix := s_fix st; s_pool := s_pool st; s_next := s_next st; s_nfix := s_nfix st;
      s_wops := s_wops st; s_cache := s_cache st; s_lcache := s_lcache st; s_usecache := s_usecache st; s_fin := s_fin st;
-     s_mark := s_mark st; s_acked := s_acked st; s_att := s_att st; s_commits := s_commits st; s_durlog := s_durlog st |}.
+     s_mark := s_mark st; s_acked := s_acked st; s_att := s_att st; s_commits := s_commits st; s_durlog := s_durlog st; s_late := s_late st |}.
 Definition set_fix st v nfix :=
   {| s_reps := s_reps st; s_stamps := s_stamps st; s_epoch := s_epoch st; s_pieces := s_pieces st; s_blobs := s_blobs st; s_dtr := s_dtr st;
      s_term := s_term st; s_nextchunk := s_nextchunk st; s_gen := s_gen st; s_known := s_known st; s_nts := s_nts st;
      s_rounds := s_rounds st; s_fix := v; s_pool := s_pool st; s_next := s_next st; s_nfix := nfix;
      s_wops := s_wops st; s_cache := s_cache st; s_lcache := s_lcache st; s_usecache := s_usecache st; s_fin := s_fin st;
-     s_mark := s_mark st; s_acked := s_acked st; s_att := s_att st; s_commits := s_commits st; s_durlog := s_durlog st |}.
+     s_mark := s_mark st; s_acked := s_acked st; s_att := s_att st; s_commits := s_commits st; s_durlog := s_durlog st; s_late := s_late st |}.
 Definition set_pool st v next :=
   {| s_reps := s_reps st; s_stamps := s_stamps st; s_epoch := s_epoch st; s_pieces := s_pieces st; s_blobs := s_blobs st; s_dtr := s_dtr st;
      s_term := s_term st; s_nextchunk := s_nextchunk st; s_gen := s_gen st; s_known := s_known st; s_nts := s_nts st;
      s_rounds := s_rounds st; s_fix := s_fix st; s_pool := v; s_next := next; s_nfix := s_nfix st;
      s_wops := s_wops st; s_cache := s_cache st; s_lcache := s_lcache st; s_usecache := s_usecache st; s_fin := s_fin st;
-     s_mark := s_mark st; s_acked := s_acked st; s_att := s_att st; s_commits := s_commits st; s_durlog := s_durlog st |}.
+     s_mark := s_mark st; s_acked := s_acked st; s_att := s_att st; s_commits := s_commits st; s_durlog := s_durlog st; s_late := s_late st |}.
 Definition set_cli st wops cache lcache usecache :=
   {| s_reps := s_reps st; s_stamps := s_stamps st; s_epoch := s_epoch st; s_pieces := s_pieces st; s_blobs := s_blobs st; s_dtr := s_dtr st;
      s_term := s_term st; s_nextchunk := s_nextchunk st; s_gen := s_gen st; s_known := s_known st; s_nts := s_nts st;
      s_rounds := s_rounds st; s_fix := s_fix st; s_pool := s_pool st; s_next := s_next st; s_nfix := s_nfix st;
      s_wops := wops; s_cache := cache; s_lcache := lcache; s_usecache := usecache; s_fin := s_fin st;
-     s_mark := s_mark st; s_acked := s_acked st; s_att := s_att st; s_commits := s_commits st; s_durlog := s_durlog st |}.
+     s_mark := s_mark st; s_acked := s_acked st; s_att := s_att st; s_commits := s_commits st; s_durlog := s_durlog st; s_late := s_late st |}.
 Definition set_fin st fin mark :=
   {| s_reps := s_reps st; s_stamps := s_stamps st; s_epoch := s_epoch st; s_pieces := s_pieces st; s_blobs := s_blobs st; s_dtr := s_dtr st;
      s_term := s_term st; s_nextchunk := s_nextchunk st; s_gen := s_gen st; s_known := s_known st; s_nts := s_nts st;
      s_rounds := s_rounds st; s_fix := s_fix st; s_pool := s_pool st; s_next := s_next st; s_nfix := s_nfix st;
      s_wops := s_wops st; s_cache := s_cache st; s_lcache := s_lcache st; s_usecache := s_usecache st; s_fin := fin;
-     s_mark := mark; s_acked := s_acked st; s_att := s_att st; s_commits := s_commits st; s_durlog := s_durlog st |}.
+     s_mark := mark; s_acked := s_acked st; s_att := s_att st; s_commits := s_commits st; s_durlog := s_durlog st; s_late := s_late st |}.
 Definition set_ghost st acked att commits durlog :=
   {| s_reps := s_reps st; s_stamps := s_stamps st; s_epoch := s_epoch st; s_pieces := s_pieces st; s_blobs := s_blobs st; s_dtr := s_dtr st;
      s_term := s_term st; s_nextchunk := s_nextchunk st; s_gen := s_gen st; s_known := s_known st; s_nts := s_nts st;
      s_rounds := s_rounds st; s_fix := s_fix st; s_pool := s_pool st; s_next := s_next st; s_nfix := s_nfix st;
      s_wops := s_wops st; s_cache := s_cache st; s_lcache := s_lcache st; s_usecache := s_usecache st; s_fin := s_fin st;
-     s_mark := s_mark st; s_acked := acked; s_att := att; s_commits := commits; s_durlog := durlog |}.
+     s_mark := s_mark st; s_acked := acked; s_att := att; s_commits := commits; s_durlog := durlog; s_late := s_late st |}.
 
+Definition set_late st v :=
+  {| s_reps := s_reps st; s_stamps := s_stamps st; s_epoch := s_epoch st; s_pieces := s_pieces st; s_blobs := s_blobs st; s_dtr := s_dtr st;
+     s_term := s_term st; s_nextchunk := s_nextchunk st; s_gen := s_gen st; s_known := s_known st; s_nts := s_nts st;
+     s_rounds := s_rounds st; s_fix := s_fix st; s_pool := s_pool st; s_next := s_next st; s_nfix := s_nfix st;
+     s_wops := s_wops st; s_cache := s_cache st; s_lcache := s_lcache st; s_usecache := s_usecache st; s_fin := s_fin st;
+     s_mark := s_mark st; s_acked := s_acked st; s_att := s_att st; s_commits := s_commits st; s_durlog := s_durlog st; s_late := v |}.
 Definition set_reps st v := set_store st v (s_stamps st) (s_pieces st).
 Definition set_stamps st v := set_store st (s_reps st) v (s_pieces st).
 Definition set_pieces st v := set_store st (s_reps st) (s_stamps st) v.
@@ -425,6 +433,7 @@ Definition mk_commit (gen base : Z) : rpc := mk_rpc K_Commit (-1) gen 0 0 (-1) 0
 (* ------------------------------------------------------------------ client: writeAt inside one existing tract *)
 Definition use_cache (st : state) (cli : Z) : bool := match Cluster.Model.zget (s_usecache st) cli with Some b => b | None => false end.
 
+
 Fixpoint cache_get (m : list (Z * (tkt * centry))) (cli : Z) (tk : tkt) : option centry :=
   match m with
   | [] => None
@@ -445,14 +454,16 @@ Definition set_cache st v := set_cli st (s_wops st) v (s_lcache st) (s_usecache 
 
 Definition w_set (w : wop) phase cached retry entry res final : wop :=
   {| wo_op := wo_op w; wo_cli := wo_cli w; wo_blob := wo_blob w; wo_tract := wo_tract w; wo_off := wo_off w; wo_len := wo_len w;
-     wo_wid := wo_wid w; wo_phase := phase; wo_cached := cached; wo_retry := retry; wo_entry := entry; wo_res := res; wo_final := final |}.
+     wo_wid := wo_wid w; wo_phase := phase; wo_cached := cached; wo_retry := retry; wo_entry := entry; wo_res := res; wo_final := final; wo_late := wo_late w |}.
 
 Definition w_tk (w : wop) : tkt := Cluster.Model.tkey (wo_blob w) (wo_tract w).
 
 Definition finish_w (st : state) (w : wop) (n err : Z) : state :=
   let st1 := add_fin (set_wops st (del_wop (s_wops st) (wo_op w))) (wo_op w) n err in
   if (err =? cl_NoError) && (n =? wo_len w)
-  then set_ghost st1 ((w_tk w, Cluster.Model.mkw (wo_wid w) (wo_off w) (wo_len w)) :: s_acked st1) (s_att st1) (s_commits st1) (s_durlog st1)
+  then let st2 := set_ghost st1 ((w_tk w, Cluster.Model.mkw (wo_wid w) (wo_off w) (wo_len w)) :: s_acked st1) (s_att st1) (s_commits st1) (s_durlog st1) in
+       if wo_late w && negb (use_cache st (wo_cli w))
+       then set_late st2 ((w_tk w, Cluster.Model.mkw (wo_wid w) (wo_off w) (wo_len w)) :: s_late st2) else st2
   else st1.
 
 Definition mk_write (w : wop) (h ver : Z) : rpc :=
@@ -489,6 +500,7 @@ Definition cli_reply (fx : fixes) (st : state) (op : Z) (r : rpc) (res : list Z)
       let err := hd cl_ErrRPC res in
       let k := Cluster.Model.k_kind r in
       if k =? K_StatBlob then
+        if negb (wo_phase w =? 1) then st else   (* a StatBlob reply is awaited in phase 1 only *)
         if negb (err =? cl_NoError) then
           if wo_retry w then issue (set_wops st (upd_wop (s_wops st) (w_set w 1 false false None [] 0))) (mk_statblob w) (wo_op w)
           else finish_w st w 0 err
@@ -496,6 +508,7 @@ Definition cli_reply (fx : fixes) (st : state) (op : Z) (r : rpc) (res : list Z)
         else if nth 1 res 0 <=? wo_tract w then finish_w st w 0 (-8)   (* would create tracts: outside the modelled regime *)
         else w_get fx st w
       else if k =? K_GetTracts then
+        if negb ((wo_phase w =? 2) && (Cluster.Model.k_blob r =? wo_blob w) && (nth 0 (Cluster.Model.k_aux r) 0 =? wo_tract w)) then st else
         if negb (err =? cl_NoError) then finish_w st w 0 err
         else match entry with
              | None => finish_w st w 0 cl_ErrNoSuchTract
@@ -504,6 +517,7 @@ Definition cli_reply (fx : fixes) (st : state) (op : Z) (r : rpc) (res : list Z)
                  w_after_entry fx st1 w e false
              end
       else if k =? K_Write then
+        if negb (wo_phase w =? 3) then st else
         let res' := map (fun '(h, e) => if (h =? Cluster.Model.k_ts r) && (e =? -1) then (h, err) else (h, e)) (wo_res w) in
         let w' := w_set w 3 (wo_cached w) (wo_retry w) (wo_entry w) res' 0 in
         let st1 := set_wops st (upd_wop (s_wops st) w') in
@@ -524,7 +538,7 @@ Definition cli_reply (fx : fixes) (st : state) (op : Z) (r : rpc) (res : list Z)
                  else finish_w st1 w' 0 e
              end
       else (* ReportBadTS / FixVersion came back: their result is ignored *)
-        finish_w st w 0 (wo_final w)
+        if negb (wo_phase w =? 4) then st else finish_w st w 0 (wo_final w)
   end.
 
 (* ------------------------------------------------------------------ fixVersion *)
@@ -1051,6 +1065,11 @@ Definition step_read (st : state) (blob tract off len : Z) (tries : list Z) : li
 
 Definition begin_event (st : state) : state := set_fin st [] (s_next st).
 
+(* operation ids (client writes, rounds) are positive and never reused while anything of the old owner is around *)
+Definition op_fresh (st : state) (op : Z) : bool :=
+  (0 <? op) && negb (existsb (fun w => wo_op w =? op) (s_wops st)) && negb (existsb (fun r => rd_op r =? op) (s_rounds st)) &&
+  negb (existsb (fun e => p_owner e =? op) (s_pool st)).
+
 Definition step_fx (fx : fixes) (st0 : state) (ev : list Z) : state * list Z :=
   let st := begin_event st0 in
   match ev with
@@ -1059,6 +1078,7 @@ Definition step_fx (fx : fixes) (st0 : state) (ev : list Z) : state * list Z :=
       if c =? 1 then
         match a with
         | nts :: ncli :: flags =>
+            if negb (s_nts st =? 0) then (st, [-1]) else   (* the cell is set up once *)
             (set_cli (set_cur st (s_gen st) (Cluster.Model.zset (s_known st) (s_gen st) (map (fun i => Z.of_nat i + 1) (seq 0 (Z.to_nat nts)))) nts)
                      (s_wops st) (s_cache st) (s_lcache st)
                      (fst (fold_left (fun '(m, i) f => (Cluster.Model.zset m i (negb (f =? 0)), i + 1)) flags ([], 0))), [])
@@ -1066,13 +1086,16 @@ Definition step_fx (fx : fixes) (st0 : state) (ev : list Z) : state * list Z :=
         end
       else if c =? 2 then
         match a with
-        | [blob; nt; tgt] => (set_blobs st (Cluster.Model.zset (s_blobs st) blob {| b_cls := c14_ClassREPLICATED; b_nt := nt; b_tgt := tgt |}), [])
+        | [blob; nt; tgt] =>
+            match Cluster.Model.zget (s_blobs st) blob with Some _ => (st, [-1]) | None =>   (* blob ids are fresh *)
+            (set_blobs st (Cluster.Model.zset (s_blobs st) blob {| b_cls := c14_ClassREPLICATED; b_nt := nt; b_tgt := tgt |}), []) end
         | _ => (st, [-1])
         end
       else if c =? 20 then
         match a with
         | blob :: tract :: ver :: nh :: hosts =>
             let tk := Cluster.Model.tkey blob tract in
+            if (match dget st tk with Some _ => true | None => false end) || negb (Cluster.Model.distinct hosts) then (st, [-1]) else   (* tracts are fresh *)
             let reps := fold_left (fun m h => Cluster.Model.rset m (h, tk) {| Cluster.Model.r_ver := ver; Cluster.Model.r_app := [] |}) hosts (s_reps st) in
             (set_dtr (set_reps st reps) (Cluster.Model.tset (s_dtr st) tk {| d_ver := ver; d_hosts := hosts; d_rs := None |}), [])
         | _ => (st, [-1])
@@ -1107,9 +1130,11 @@ Definition step_fx (fx : fixes) (st0 : state) (ev : list Z) : state * list Z :=
       else if c =? 3 then
         match a with
         | [op; cli; blob; tract; off; len; wid] =>
+            if negb (op_fresh st op) || (len <=? 0) then (st, [-1]) else
             let wascached := zmem cli (s_lcache st) in
             let w := {| wo_op := op; wo_cli := cli; wo_blob := blob; wo_tract := tract; wo_off := off; wo_len := len; wo_wid := wid;
-                        wo_phase := 1; wo_cached := false; wo_retry := wascached; wo_entry := None; wo_res := []; wo_final := 0 |} in
+                        wo_phase := 1; wo_cached := false; wo_retry := wascached; wo_entry := None; wo_res := []; wo_final := 0;
+                        wo_late := match dget st (Cluster.Model.tkey blob tract) with Some d => match d_rs d with Some _ => true | None => false end | None => false end |} in
             let st1 := set_cli st (s_wops st ++ [w]) (s_cache st)
                                (if use_cache st cli && negb wascached then cli :: s_lcache st else s_lcache st) (s_usecache st) in
             let st2 := set_ghost st1 (s_acked st1) ((Cluster.Model.tkey blob tract, Cluster.Model.mkw wid off len) :: s_att st1) (s_commits st1) (s_durlog st1) in
@@ -1138,7 +1163,8 @@ Definition step_fx (fx : fixes) (st0 : state) (ev : list Z) : state * list Z :=
         end
       else if c =? 80 then
         match a with
-        | [op] => let '(st1, obs) := round_start st op in
+        | [op] => if negb (op_fresh st op) then (st, [-1]) else
+                  let '(st1, obs) := round_start st op in
                   (st1, [Z.of_nat (length obs) / 2] ++ obs ++ out_section st1 ++ fin_section st1)
         | _ => (st, [-1])
         end
